@@ -209,8 +209,10 @@ impl Scheduler {
         #[cfg(folo_verif)]
         crate::verif::sim_point("spawn:before-notify");
 
-        // Notify one worker that work is available.
-        state.wake_event.notify(1);
+        // Notify one more worker that work is available. This must be `notify_additional()`:
+        // `notify(1)` is a no-op while an earlier notification has not been consumed yet, so a
+        // second task spawned right after the first would leave a second idle worker asleep.
+        state.wake_event.notify_additional(1);
 
         JoinHandle::new(receiver)
     }
@@ -279,8 +281,10 @@ impl Scheduler {
         #[cfg(folo_verif)]
         crate::verif::sim_point("spawn:before-notify");
 
-        // Notify one worker that work is available.
-        state.wake_event.notify(1);
+        // Notify one more worker that work is available. This must be `notify_additional()`:
+        // `notify(1)` is a no-op while an earlier notification has not been consumed yet, so a
+        // second task spawned right after the first would leave a second idle worker asleep.
+        state.wake_event.notify_additional(1);
     }
 }
 
